@@ -674,6 +674,8 @@ def vc_case(ctx, impl, logic, pre, c, post, label, lines, pending):
     # harness-side reading of the HOL terms (a mirror: an exception here is a machinery error)
     vcs_ast = [hol_to_ast(h, logic) for h in vcs_hol]
     rec.update(vcs_ast=vcs_ast, vcs_str=vcs_str)
+    LEX_STRINGS.extend(vcs_str)
+    NAMES_SEEN.update(vs)
     lines.append(key)
     pending.append(rec)
     nontriv = depth(c) >= 1 and len(vcs_str) >= 1
@@ -787,7 +789,7 @@ def compare_vcs(ctx, out, pending):
         x = sexp.loads(line)
         if x[4] != ["T", "T", "T", "T"]:
             # the decidable hypotheses of sem_adequate_ws / print_parse_* must cover what is generated and what compute_wp builds
-            ctx.broken("hypotheses:c20:wf", "wsCom / wfC pre / wfC post / wfC of all VCs = %s on %s" % (x[4], rec["key"]))
+            ctx.broken("hypotheses:c20:wf", "wsCom&okCom / okE pre / okE post / okE of all VCs = %s on %s" % (x[4], rec["key"]))
         ctx.count("wf-hypotheses-checked")
         m_vcs = sorted(repr(hol_norm(u_expr(v))) for v in x[2])
         m_strs = sorted(sexp.dec(t) for t in x[3])
@@ -919,6 +921,90 @@ def model_parse_result(line, com=False):
     return ("?", line)
 
 
+LEX_STRINGS = []      # every string the implementation printed in this run, and the perturbed ones
+
+
+def real_lex(impl, text):
+    """Lark's standard lexer over all terminals of parser2's grammar: ("ok", [(kind, value) ...]) | ("err",)."""
+    try:
+        with time_limit(30):
+            toks = list(impl.parser2.com_parser.lex(text))
+    except Timeout:
+        raise
+    except Exception:  # noqa  (UnexpectedCharacters: no terminal matches)
+        return ("err",)
+    out = []
+    for t in toks:
+        if t.type == "CNAME":
+            out.append(("id", str(t)))
+        elif t.type == "INT":
+            out.append(("num", int(str(t))))
+        else:
+            out.append(("sym", str(t)))
+    return ("ok", out)
+
+
+def model_lex_result(line):
+    if line == "err":
+        return ("err",)
+    x = sexp.loads(line)
+    out = []
+    for t in x[1]:
+        out.append((t[0], int(t[1]) if t[0] == "num" else sexp.dec(t[1])))
+    return ("ok", out)
+
+
+def lexer_stage(ctx, impl):
+    """The model lexer against the real Lark lexer: token lists of every printed string (conditions, VCs,
+    programs) and of token- and character-perturbed strings; nameOK of every generated name."""
+    rng = ctx.rng("lex")
+    strings = list(dict.fromkeys(LEX_STRINGS))
+    hand = ["a-->b", "a- ->b", "a--b", "a---b", "a-- >b", "a<=b", "a< =b", "a<b", "a==b", "a= =b", "a=b", "a!=b", "a!b", "x:=1", "x:1", "x: =1",
+            "truex true iffy if thenx then elsex else skipx skip whilex while forallx forall", "a1 _a a_1 1a 007 0 12x", "a\tb\nc\r\x0cd",
+            "a.b[c]{d};e,f", "a >= b", "a > b", "a <--> b", "#", "a ? b", "", "   ", "~~a", "((", "a&|b", "if(a)then", "x1:=-1;-->", "A_B9 == zZ"]
+    chars = list("abx_19 ()-=<>!&|~:;,+*{}[].\n\t") + ["-->", "==", "<=", "true", "if"]
+    for st in strings[:ctx.scale(400, 4000)]:
+        cs = list(st)
+        for _ in range(rng.choice([1, 1, 2])):
+            i = rng.randrange(len(cs) + 1)
+            r = rng.random()
+            if r < 0.4 and cs:
+                del cs[min(i, len(cs) - 1)]
+            elif r < 0.8:
+                cs.insert(i, rng.choice(chars))
+            elif cs:
+                cs[min(i, len(cs) - 1)] = rng.choice(chars)
+        hand.append("".join(cs))
+    allstr = strings + hand
+    out = ctx.lean_driver(EXE, [sexp.dumps(["lex", sexp.enc(t)]) for t in allstr])
+    if out is None or len(out) != len(allstr):
+        ctx.broken("correspondence:c20:driver", "model driver unavailable (lexer stream)")
+        return
+    ndis = 0
+    for t, line in zip(allstr, out):
+        r, m = real_lex(impl, t), model_lex_result(line)
+        ctx.case(("lex", t), nontrivial=len(t) > 3)
+        ctx.count("lex:%s" % r[0])
+        if r != m:
+            ndis += 1
+            if ndis <= 3:
+                ctx.broken("correspondence:c20:lex", "string %r: Lark lexer %s, model %s" % (t, r, m))
+                ctx.coverage["disagreements_checked"] += 1
+    # the identifier hypothesis of lex_print / print_parse_sem, on every name the generators use
+    names = sorted(set(VARS) | {"a", "b", "c", "d", "x", "x1", "n1", "_t"} | set(NAMES_SEEN))
+    outn = ctx.lean_driver(EXE, [sexp.dumps(["nameok", sexp.enc(v)]) for v in names])
+    if outn is None or len(outn) != len(names):
+        ctx.broken("correspondence:c20:driver", "model driver unavailable (nameok)")
+        return
+    bad = [v for v, l in zip(names, outn) if l != "T"]
+    ctx.count("nameOK (hypothesis of lex_print / print_parse_sem)", len(names) - len(bad))
+    if bad:
+        ctx.broken("hypotheses:c20:names", "generated variable names outside nameOK: %s" % bad)
+
+
+NAMES_SEEN = set()
+
+
 def pp_stage(ctx, impl, logic):
     rng = ctx.rng("pp")
     n = ctx.scale(1500, 15000)
@@ -957,6 +1043,9 @@ def pp_stage(ctx, impl, logic):
             viol(ctx, "print-raise:%s" % sexp.dumps(s_expr(e)), "__str__ raised %s" % classify_exc(ex), {"kind": "pp", "expr": e})
             s = None
         strs.append(s)
+        if s is not None:
+            LEX_STRINGS.append(s)
+            NAMES_SEEN.update(vars_of(e, set()))
         lines.append(sexp.dumps(["pp", s_expr(e)]))
         lines.append(sexp.dumps(["parsecond", sexp.enc(s if s is not None else "?")]))
         lines.append(sexp.dumps(["lexpp", s_expr(e)]))
@@ -1052,6 +1141,8 @@ def com_pp_stage(ctx, impl):
             viol(ctx, "print-com-raise:%s" % sexp.dumps(s_com(c)), "print_com raised %s" % classify_exc(ex), {"kind": "compp", "com": c})
             text = None
         texts.append(text)
+        if text is not None:
+            LEX_STRINGS.append(text)
         lines.append(sexp.dumps(["ppcom", s_com(c)]))
         lines.append(sexp.dumps(["parsecom", sexp.enc(text or "?")]))
     extra = ["skip", "x := 1; y := 2; z := 3", "if (a == b) then x := 1 else x := 2; y := 3", "while (a == b) {[true] x := 1}; y := 2",
@@ -1078,9 +1169,9 @@ def com_pp_stage(ctx, impl):
         if text is None:
             continue
         ctx.case(("compp", text), nontrivial=depth(c) >= 1)
-        m_lines = [sexp.dec(a) for a in sexp.loads(out[2 * i])]
-        if "\n".join(m_lines) != text:
-            disagree("print_com differs: impl %r model %r" % (text, "\n".join(m_lines)))
+        m_text = sexp.dec(out[2 * i])
+        if m_text != text:
+            disagree("print_com differs: impl %r model %r" % (text, m_text))
             continue
         r_p, m_p = parse_real(impl, text, com=True), model_parse_result(out[2 * i + 1], com=True)
         if (r_p[0] == "ok") != (m_p[0] == "ok") or (r_p[0] == "ok" and r_p[1] != m_p[1]):
@@ -1093,6 +1184,15 @@ def com_pp_stage(ctx, impl):
         ctx.count("compp:%s" % ("identical" if same else "different-tree"))
         if not same:
             check_com_roundtrip(ctx, impl, c)
+    # hypotheses and statement of lex_print_com on every generated program
+    outl = ctx.lean_driver(EXE, [sexp.dumps(["lexcom", s_com(c)]) for c in coms])
+    if outl is None or len(outl) != len(coms):
+        ctx.broken("correspondence:c20:driver", "model driver unavailable (lexcom)")
+    else:
+        bad = [c for c, l in zip(coms, outl) if sexp.loads(l) != ["T", "T"]]
+        ctx.count("lexOKc c and lex(ppCom c) == comToks c", len(coms) - len(bad))
+        if bad:
+            ctx.broken("hypotheses:c20:lexcom", "lexOKc / lex(ppCom c) = comToks c fails on %s" % sexp.dumps(s_com(bad[0])))
     base = 2 * len(coms)
     for j, s in enumerate(extra):
         r_p, m_p = parse_real(impl, s, com=True), model_parse_result(out[base + j], com=True)
@@ -2055,7 +2155,8 @@ def run(ctx):
     for name, stage in (("eval", lambda: eval_stage(ctx)), ("interp", lambda: interp_stage(ctx)), ("pp", lambda: pp_stage(ctx, impl, logic)),
                         ("com-pp", lambda: com_pp_stage(ctx, impl)), ("vcs", lambda: vcs_stage(ctx, impl, logic)), ("sem", lambda: sem_stage(ctx)),
                         ("vcgnat", lambda: vcgnat_stage(ctx)),
-                        ("vcghol", lambda: vcghol_stage(ctx)), ("helpers", lambda: helpers_stage(ctx, impl))):
+                        ("vcghol", lambda: vcghol_stage(ctx)), ("helpers", lambda: helpers_stage(ctx, impl)),
+                        ("lexer", lambda: lexer_stage(ctx, impl))):
         stage()
         ctx.log("stage %s done (%d cases so far)" % (name, ctx.coverage["evaluations"]))
 
@@ -2131,33 +2232,42 @@ def replay(ctx, rp):
 
 
 MANIFEST = {
-    "text": "PROVED in Lean (about the executable model lean/Holpy/C20/Model.lean, every program / assertion / state, no bound): vcs_sound -- if "
-            "every condition in the list get_vcs returns is valid, every terminating execution from a state satisfying the precondition ends in the "
-            "postcondition; vcg_sound -- the same for the assumptions of the theorem imp.vcg/vcg_norm returns; exec_deterministic; interp_sound, "
-            "interp_complete (fuel interpreter = big-step semantics Exec); print_parse_tokens, print_parse_id, print_parse_sem_partial -- the printer "
-            "(token sequence of Op.__str__) followed by parser2's grammar (as LALR(1) with shift preference reads it) returns the same condition for "
-            "every wfC condition; parse_produces_wfC, reparse_of_parsed -- every condition the grammar returns is wfC, so that hypothesis covers all "
-            "user input; typed_total, sem_adequate, sem_adequate_ws -- the Sem predicate of library/hoare.json (re-translated each run) coincides with "
-            "Exec on programs satisfying the decidable check wsCom; hoare_rules_valid -- Sem_Skip, Sem_Assign and the six Hoare rules imp.vcg "
-            "applies hold for that Sem (three of them carry no proof in the library); sem_rules_pinned. "
-            "COMPARED per run, model against code, on generated inputs (observable results only): the list of VC strings and of VC HOL terms "
-            "get_lines/get_vcs return (as multisets), the assumptions of imp.vcg_norm's theorem on triples built as HOL terms (as a multiset), "
-            "Op.__str__, print_com, cond_parser / com_parser results (valid and token-perturbed strings), lex(pp e) = toks e, expression values, "
-            "interpreter results, eval_Sem final states; the decidable hypotheses wfC / wsCom are evaluated by the driver on every generated "
-            "condition, every VC, every cond_parser result and every generated program. "
+    "text": "PROVED in Lean (about the executable model lean/Holpy/C20/Model.lean; every program / assertion / state, no bound). "
+            "VC generation: vcs_sound (all conditions of get_vcs valid ==> every terminating execution from the precondition ends in the "
+            "postcondition), vcg_sound (same for the assumptions of imp.vcg/vcg_norm's theorem), norm_vc_equiv + vcs_equiv_vcsH (the only "
+            "simplification, dropping a hypothesis that is literally true, preserves the meaning in every state, so both generators' condition "
+            "lists are equi-valid), norm_subst_equiv (evaluating the function update of assign_rule = substitution), vcs_partial_only (PARTIAL "
+            "correctness only: all conditions can be valid for a program that never terminates -- neither the code nor the theorems claim "
+            "termination). Semantics: exec_deterministic, interp_sound, interp_complete, typed_total, sem_adequate, sem_adequate_ws (the Sem "
+            "predicate of library/hoare.json, re-translated each run, coincides with Exec on programs passing the decidable check wsCom; states "
+            "are functions with point updates, as in imp.py), hoare_rules_valid, sem_rules_pinned. Printing and reading back, on STRINGS: lex_print, "
+            "lex_print_arith, lex_print_com (Lark's standard lexer -- white space skipped, CNAME/INT longest match, keyword retyping, longest "
+            "literal -- reads the printed condition / expression / program back as exactly the printer's tokens, for names that are identifiers "
+            "and not keywords: nameOK), print_parse_tokens, print_parse_id, print_parse_string, print_parse_sem (str(e) parsed by parser2's lexer and "
+            "grammar, as LALR(1) with shift preference reads it, is e again up to the reading of negative constants, hence has the same value in "
+            "every state; for every wfC condition), parse_produces_wfC, reparse_of_parsed (every condition the grammar returns is wfC), vcs_in_language + vcs_shown_sem (every VC of a program of the "
+            "assertion language is again in it, hence every VC string shown parses back to a condition with the value of the VC computed). "
+            "NOT proved: a parse-back theorem for programs (Seq(Cond(..),c) has no concrete syntax: known finding); anything about arrays, fields, "
+            "forall (convert_hol does not exist for them and get_vcs raises: out of scope); termination. "
+            "COMPARED per run, model against code, observable results only: VC strings and VC HOL terms of get_lines/get_vcs (multisets), "
+            "assumptions of imp.vcg_norm's theorem on triples built as HOL terms (multiset), Op.__str__, print_com text, cond_parser / com_parser "
+            "results (valid and token-perturbed strings), token lists of the model lexer and of Lark's lexer on every printed string and on "
+            "character-perturbed strings, expression values, interpreter results, eval_Sem final states; the decidable hypotheses wfC, namesOK, "
+            "nameOK, wsCom, okCom, okE, lexOKc are evaluated by the driver on every generated condition, VC, name, program and cond_parser result. "
             "JUDGED on the implementation's own outputs by the harness' reference evaluator / interpreter on concrete states: (a) VC HOL terms all "
             "true on -3..3 and on every visited state ==> executions from every grid state satisfying the precondition end in the postcondition "
-            "(get_vcs) -- likewise on 0..3 for imp.vcg_norm's conditions; (b) each shown VC string, re-parsed by the real parser, has the value of "
-            "its HOL term; generated conditions printed, re-parsed, and converted by convert_hol keep their value; expr.neg/conj/implies/... return "
-            "conditions with the value of the logical combination; (c) eval_Sem's theorem (names of any length, name -> cell mapping observed and "
-            "required injective) and vcg_solve-proved triples against execution of the program text.",
-    "note": "Trusted: Lean kernel, propext/Quot.sound; the harness (generators, reference evaluator/interpreter, reader of HOL terms incl. function "
-            "updates, hoare.json translator, builder of HOL triples) -- exceptions inside harness code are machinery errors (exit 2) or `broken`, "
-            "never verdicts; Lark's LALR tables and contextual lexer (the grammar model is tied by differential parsing); the holpy kernel and Z3 "
-            "for the theorems eval_Sem / vcg_solve return. Partial: the round trip is proved on tokens; lex(pp e) = toks e is compared, not proved. "
-            "Not modelled: arrays / fields / forall (convert_hol does not exist for them, get_vcs raises), functions of arity > 2, identifiers that "
-            "are keywords, >=, >, <-->, false in the printed language (no concrete syntax; never produced by compute_wp). Known finding: print_com "
-            "cannot express a sequence whose first part ends in a conditional.",
+            "(get_vcs; likewise 0..3 for imp.vcg_norm); (b) each shown VC string re-parsed by the real parser has the value of its HOL term; "
+            "generated conditions printed, re-parsed and converted by convert_hol keep their value; expr.neg/conj/implies/... return conditions "
+            "with the value of the logical combination; (c) eval_Sem's theorem (names of any length, name -> cell mapping observed and required "
+            "injective) and vcg_solve-proved triples against execution of the program text.",
+    "note": "Trusted: Lean kernel, propext / Classical.choice / Quot.sound; the harness (generators, reference evaluator/interpreter, reader of HOL "
+            "terms incl. function updates, hoare.json translator, builder of HOL triples) -- exceptions inside harness code are machinery errors "
+            "(exit 2) or `broken`, never verdicts; Lark's LALR tables (the grammar model is tied by differential parsing) and Lark's lexer "
+            "construction (the lexer model is tied by differential lexing; the contextual restriction of terminals per parser state is not "
+            "modelled, it only matters for keywords used as identifiers, which nameOK excludes); the holpy kernel and Z3 for the theorems "
+            "eval_Sem / vcg_solve return. Not modelled: arrays / fields / forall, functions of arity > 2, >=, >, <-->, false in the printed "
+            "language (no concrete syntax in parser2; never produced by compute_wp). Known finding: print_com cannot express a sequence whose "
+            "first part ends in a conditional.",
     "design_ref": "DESIGN.md 8.11",
 }
 FINDINGS = [
